@@ -12,7 +12,7 @@ RULE = ("programs biased to textually identical gate statements in different sco
         "is inconclusive). non-trivial = program has a name collision or a twin; distinct = S-expression")
 ASSUMPTIONS = ["lexical binding rules as implemented in core_from_sx: parameters shadow header names inside the macro body only"]
 TIERS = {"quick": {"shards": 8, "budget_s": 100}, "thorough": {"shards": 16, "budget_s": 360}}
-REQUIRE = {"macro-bodies-analysed-in-call-site-scope": 300, "alias-fill-in-results-read-back-by-name": 1000, "used-qubit-analyses-compared": 3000, "route:builder": 300, "judged-after-shifted-twin": 500, "route:text-native": 1000, "override-of-shadowed-name": 300, "route:build-lists": 300, "route:text": 300, "memo-hits": 500, "memo-hits-across-scopes": 50, "shadowing-programs": 300, "twin-programs": 300,
+REQUIRE = {"legality-twin-builds": 2000, "macro-bodies-analysed-in-call-site-scope": 300, "alias-fill-in-results-read-back-by-name": 1000, "used-qubit-analyses-compared": 3000, "route:builder": 300, "judged-after-shifted-twin": 500, "route:text-native": 1000, "override-of-shadowed-name": 300, "route:build-lists": 300, "route:text": 300, "memo-hits": 500, "memo-hits-across-scopes": 50, "shadowing-programs": 300, "twin-programs": 300,
            "metamorphic-pairs": 200}
 
 MEMO = {"hits": 0, "cross": 0, "calls": 0}
@@ -227,6 +227,45 @@ def judge(case):
             elif o3[0] == "exc":
                 fails.append(("fill_in_let-crashed:" + o3[1], {"error": o3[2], "ov": ov}))
     return "ok", fails, {"c": c, "kc": kc}
+
+
+def legality_twin_probe(ctx, count):
+    """Whether a statement may stand where it stands does not depend on an identically written statement elsewhere: a call
+    of a macro that holds a subcircuit block is refused inside a subcircuit block or a parallel block -- also when the same
+    call, written the same way, stands legally at the top of the program before it."""
+    rec, rng = ctx.rec, ctx.rng
+    for _ in range(count):
+        mname = rng.choice(["m", "flip", "sect", "F"])
+        par = rng.choice(["a", "x", "q"])
+        arg = ("array_item", "q", rng.randrange(2))
+        inner = rng.choice([("subcircuit_block", "", ("gate", "X", par)), ("loop", 2, ("sequential_block", ("subcircuit_block", 3, ("gate", "X", par))))])
+        mac = ("macro", mname, par, ("sequential_block", inner))
+        call = ("gate", mname, arg)
+        where = rng.choice(["sub", "par", "sub-in-loop", "par-in-seq"])
+        nested = {"sub": ("subcircuit_block", "", call), "par": ("parallel_block", call, ("gate", "X", ("array_item", "q", 1 - arg[2]))),
+                  "sub-in-loop": ("loop", 2, ("sequential_block", ("subcircuit_block", "", call))),
+                  "par-in-seq": ("sequential_block", ("parallel_block", call))}[where]
+        hdr = (("register", "q", 2),)
+        alone = ("circuit",) + hdr + (mac, nested)
+        legal_first = ("circuit",) + hdr + (mac, call, nested)
+        legal_after = ("circuit",) + hdr + (mac, nested, call)
+        native = X.native() if rng.random() < 0.5 else None
+        outs = {}
+        for tag, pg in (("alone", alone), ("after-the-same-call-at-top-level", legal_first), ("before-the-same-call-at-top-level", legal_after)):
+            for route in ("text", "build"):
+                o = lib.outcome(lib.parse, sx.to_text(pg), native) if route == "text" else lib.outcome(lib.build, pg, native)
+                outs[(tag, route)] = o[0]
+                rec.count("legality-twin-builds")
+        rec.case([alone, where], nontrivial=True)
+        for (tag, route), v in outs.items():
+            if v == "exc":
+                rec.violation(sig("C07", "legality-twin:crash:" + route), {"where": where, "case": tag}, {"prog": legal_first, "route": "text"})
+            elif tag != "alone" and outs[("alone", route)] == "jaqal" and v == "ok":
+                rec.violation(sig("C07", "legality-depends-on-an-identical-statement-elsewhere:%s:%s" % (where, tag)),
+                              {"alone": "refused", "with the same call elsewhere": "accepted", "text": sx.to_text(legal_first if "after" in tag else legal_after), "route": route},
+                              {"prog": legal_first if "after" in tag else legal_after, "route": "text"})
+        if outs[("alone", "text")] != "jaqal":
+            rec.violation(sig("C07", "legality-twin:nested-subcircuit-accepted:" + where), {"text": sx.to_text(alone)}, {"prog": alone, "route": "text"})
 
 
 def shifted_twin(prog):
@@ -444,6 +483,7 @@ def shard(ctx):
             if twin is not None:
                 # ... and the twin after the original
                 process(ctx, {"prog": twin, "route": "text-native", "prior": [prog]}, seen)
+    legality_twin_probe(ctx, 60 if ctx.quick else 600)
     monitors.report_contracts(rec)
 
 
